@@ -8,6 +8,7 @@ import (
 	"math/rand"
 	"os"
 	"reflect"
+	"strconv"
 	"strings"
 	"sync"
 	"time"
@@ -407,12 +408,17 @@ func replayStmt(args []string) error {
 	fs := flag.NewFlagSet("replay-stmt", flag.ExitOnError)
 	in := fs.String("in", "", "ndjson from Gen_Stmt")
 	seed := fs.Int64("seed", 1, "seed")
+	dictKind := fs.String("dict", "seeded", "seeded | numeric (arguments bound as int64 / float64 / bool)")
 	fs.Parse(args)
 	rng := rand.New(rand.NewSource(*seed))
 	dict := identDict(rng, 5)
 	if *seed%2 == 1 {
 		// argument strings whose blank-joined renderings coincide: ("x y","z") vs ("x","y z")
 		dict = vx.NewDict([]string{"Zed", "a", "b1", "c_x"}, []string{"x", "x y", "y z", "z", "zz"})
+	}
+	if *dictKind == "numeric" {
+		// values that callers bind as integers, floats and booleans
+		dict = vx.NewDict([]string{"Zed", "a", "b1", "c_x"}, []string{"-7", "0", "1", "2.5", "true"})
 	}
 	dir := vx.Scratch("replaystmt")
 	defer os.RemoveAll(dir)
@@ -430,6 +436,17 @@ func replayStmt(args []string) error {
 		out := make([]any, len(a))
 		for i, r := range a {
 			out[i] = dict.Val(r)
+			if *dictKind == "numeric" {
+				// bound as Go values of their own type: the driver renders them (fmt.Sprint) to the same strings
+				v := dict.Val(r)
+				if n, err := strconv.ParseInt(v, 10, 64); err == nil && strconv.FormatInt(n, 10) == v {
+					out[i] = []any{n, int(n), int32(n)}[(i+len(a))%3]
+				} else if f, err := strconv.ParseFloat(v, 64); err == nil && fmt.Sprint(f) == v {
+					out[i] = f
+				} else if v == "true" || v == "false" {
+					out[i] = v == "true"
+				}
+			}
 		}
 		return out
 	}
